@@ -150,8 +150,43 @@ def h_to_pandas_plain(n0: int, n1: int, n2: int, n3: int, k: int) -> bool:
     return got_nonempty == want_nonempty and all(g in want for g in got)
 
 
+def _real_groups(rows):
+    """a real single file whose row groups have (scaled down) the witness's sizes; returns (path, frame, dir)"""
+    import os, tempfile
+    import pandas as pd
+    import fastparquet
+    rows = [min(int(r), 40) for r in rows]
+    nz = [r for r in rows if r > 0]
+    if not nz:
+        return None, None, None
+    d = tempfile.mkdtemp(prefix="c06-")
+    df = pd.DataFrame({"a": range(sum(nz))})
+    offs = [0]
+    for n in nz[:-1]:
+        offs.append(offs[-1] + n)
+    fn = os.path.join(d, "t.parq")
+    fastparquet.write(fn, df, row_group_offsets=offs)
+    return fn, df, d
+
+
 def replay_h_to_pandas_plain(n0, n1, n2, n3, k):
-    return None, "no concrete driver (row counts up to 2^31)"
+    import shutil
+    import fastparquet
+    fn, df, d = _real_groups([n0, n1, n2, n3][:k])
+    if fn is None:
+        return None, "no rows"
+    try:
+        pf = fastparquet.ParquetFile(fn)
+        out = pf.to_pandas()
+        if list(out["a"]) != list(df["a"]) or pf.count() != len(df):
+            return True, "full read of row groups %r returns %d rows / count() %d, written %d" % (
+                [rg.num_rows for rg in pf.row_groups], len(out), pf.count(), len(df))
+        parts = [x for i in range(len(pf.row_groups)) for x in pf[i].to_pandas()["a"]]
+        if parts != list(df["a"]):
+            return True, "row-group picks do not concatenate to the full read"
+        return False, "agrees"
+    finally:
+        shutil.rmtree(d, ignore_errors=True)
 
 
 def h_count_len(n0: int, n1: int, n2: int, k: int) -> bool:
@@ -165,7 +200,7 @@ def h_count_len(n0: int, n1: int, n2: int, k: int) -> bool:
 
 
 def replay_h_count_len(n0, n1, n2, k):
-    return None, "no concrete driver"
+    return replay_h_to_pandas_plain(n0, n1, n2, 0, k)
 
 
 def h_head(n0: int, n1: int, n2: int, k: int, nrows: int) -> int:
@@ -305,7 +340,22 @@ def h_to_pandas_mask_wrong_length(n0: int, n1: int, extra: int) -> bool:
 
 
 def replay_h_to_pandas_mask_wrong_length(n0, n1, extra):
-    return None, "no concrete driver"
+    import shutil
+    import numpy as np
+    import fastparquet
+    fn, df, d = _real_groups([max(n0, 1), max(n1, 1)])
+    try:
+        pf = fastparquet.ParquetFile(fn)
+        try:
+            out = pf.to_pandas(row_filter=np.ones(len(df) + extra, dtype=bool))
+        except ValueError:
+            return False, "refused"
+        except Exception as ex:
+            return True, "a mask of the wrong length is not refused cleanly: %s" % type(ex).__name__
+        return True, "a mask of length %d was applied to %d rows (returned %d rows)" % (len(df) + extra, len(df),
+                                                                                        len(out))
+    finally:
+        shutil.rmtree(d, ignore_errors=True)
 
 
 # ----------------------------------------------- C06: range-index reconstruction ---
